@@ -125,6 +125,46 @@ def b1(prog, ctx, flags):
                  and src(c.func.value) == name and c.func.attr in ("extend", "insert")]
         if allg and not other:
             guarded_lists[name] = gflags
+    # --- idiom (i'): the same list built once in the constructor and kept in an attribute (params are fixed for the corrector's lifetime)
+    init = prog.methods_of(cls, inherited=False).get("__init__") if cls is not None else None
+    if init is not None:
+        idefs = local_defs(init)
+        attr_lists = {}
+        for st in walk_no_nested(init):
+            if isinstance(st, ast.Assign) and len(st.targets) == 1 and (dotted(st.targets[0]) or "").startswith("self."):
+                v = st.value
+                while isinstance(v, ast.Call) and call_name(v) in ("frozenset", "set", "tuple", "list") and len(v.args) == 1:
+                    v = v.args[0]
+                if isinstance(v, ast.Name) and v.id in idefs:
+                    ds = idefs[v.id]
+                    inits = [d for d in ds if d[0] == "assign" and isinstance(d[1], ast.List) and not d[1].elts]
+                    if not inits or len(inits) != len([d for d in ds if d[0] == "assign"]):
+                        continue
+                    appends = [c for c in walk_no_nested(init) if isinstance(c, ast.Call) and src(c.func) in (v.id + ".append", v.id + ".add")]
+                    gflags, allg = set(), bool(appends)
+                    for c in appends:
+                        fs = set()
+                        for t, pol in flow.guard_facts(enclosing_stmt(c), stop=init):
+                            if pol:
+                                fs |= flag_names_in(t, flags)
+                        if not fs:
+                            allg = False
+                        gflags |= fs
+                    if allg:
+                        attr_lists[dotted(st.targets[0])] = gflags
+        # the attribute may be rebound elsewhere in the class: then it is not that list any more
+        for mname, mf in prog.methods_of(cls, inherited=False).items():
+            if mname == "__init__":
+                continue
+            for st in walk_no_nested(mf):
+                if isinstance(st, (ast.Assign, ast.AugAssign)):
+                    for t in (st.targets if isinstance(st, ast.Assign) else [st.target]):
+                        attr_lists.pop(dotted(t) or "", None)
+        for a_, fl_ in attr_lists.items():
+            guarded_lists[a_] = fl_
+            for name, ds in defs.items():
+                if len(ds) == 1 and ds[0][0] == "assign" and dotted(ds[0][1]) == a_:
+                    guarded_lists[name] = fl_
     # --- idiom (ii): negative-shaped keys stored into event_map only under a flag
     neg_key_flags = None
     stores = [s for s in walk_no_nested(cm) if isinstance(s, ast.Assign) and isinstance(s.targets[0], ast.Subscript)
@@ -250,8 +290,16 @@ def b1(prog, ctx, flags):
     if any(isinstance(r.value, ast.Call) for r in rets) or not rets:
         ctx.undecided("B1", pe, pe._qualname, "process_events hands its result over to another function (%s): the sinks of corrected "
                       "coordinates are not in this function" % "; ".join(src(r)[:60] for r in rets))
-    elif len(rets) != 1 or src(rets[0].value) != "(corrected_read_region, new_introns)":
-        ctx.fail("B1", pe, pe._qualname, "return", "process_events must return (corrected_read_region, new_introns) only")
+    else:
+        for r in rets:
+            if src(r.value) == "(corrected_read_region, new_introns)":
+                continue
+            # another way out: acceptable when what it returns is read-origin (no annotation-derived name, apart from the decided sinks)
+            names_r = {x.id for x in ast.walk(r.value) if isinstance(x, ast.Name)} - {"list", "tuple"}
+            if isinstance(r.value, ast.Tuple) and len(r.value.elts) == 2 and not (names_r & (tainted - {"corrected_read_region", "new_introns"})):
+                ctx.ok("B1", "%s:%d" % (EC, r.lineno), "early return of read-origin values %s" % src(r.value)[:60])
+            else:
+                ctx.fail("B1", r, pe._qualname, "return", "process_events must return (corrected_read_region, new_introns) only")
     init = [d for d in defs.get("corrected_read_region", []) if src(d[1]) == "read_region"]
     if not defs.get("corrected_read_region"):
         ctx.undecided("B1", pe, pe._qualname, "corrected_read_region is not defined in process_events")
